@@ -601,11 +601,14 @@ def write_evidence(pid: str, prop: Any, tier: str, verif_seed: int, results: lis
         "wall_s": round(wall, 2),
         "violations": n_viol,
     }
-    os.makedirs(os.path.join(VERIF_DIR, "evidence"), exist_ok=True)
-    tmp = os.path.join(VERIF_DIR, "evidence", f".{pid}.json.tmp")
+    # evidence/<id>.json describes runs against /repo only: a run that was pointed at another
+    # checkout (ZORG_SRC, used to try seeded changes and mutants) writes next to it instead
+    evdir = os.path.join(VERIF_DIR, "evidence", "other-checkout") if os.environ.get("ZORG_SRC") else os.path.join(VERIF_DIR, "evidence")
+    os.makedirs(evdir, exist_ok=True)
+    tmp = os.path.join(evdir, f".{pid}.json.tmp")
     with open(tmp, "w") as f:
         json.dump(ev, f, indent=1, default=repr)
-    os.replace(tmp, os.path.join(VERIF_DIR, "evidence", f"{pid}.json"))
+    os.replace(tmp, os.path.join(evdir, f"{pid}.json"))
 
 
 COMPONENTS_DEFAULT = {
